@@ -5,7 +5,9 @@ Histories over {add_template, add_template_owned (3 Cow combinations), remove_te
 set_loader (closures whose answers change with a clock), add/remove filter/test/global (custom names,
 built-ins, user functions/filters/tests taking Kwargs, a global holding a container), clone (continue on either copy), switch, render (any of 4 contexts, into a String or a failing writer, on
 this or a new thread; ok / compile-time failure / run-time failure in tojson, in filters, in assert_all_used,
-in the sink / failing or panicking context), NESTED renders (filters, tests, functions, objects'
+in the sink / failing or panicking context), values that ESCAPE a render (macro, loop object, namespace, caller; via a
+user function or State::lookup; on this or another thread) passed as context to later renders (this thread, a fresh
+thread, a thread with earlier renders), NESTED renders (filters, tests, functions, objects'
 Display / attribute lookup / methods, formatter, auto-escape callback, loader callback that render a template
 themselves on the same environment, a clone, a fresh or an unrelated one, under none/html/json), the ad-hoc entry points render_named_str / render_str / template_from_named_str /
 template_from_str / compile_expression(_owned) / undeclared_variables with names that collide with stored or
@@ -34,8 +36,23 @@ STEP_W = 19      # integers per step in a trace: result(2) + cur(8) + present(1)
 
 # ---------------------------------------------------------------------------------------------
 # readable form of sources and histories (mirrors harness/src/bin/c15.rs::src_text)
+MACRO_HEADS = ["{% macro hello() %}{{ 100 + q }}{% endmacro %}{{ stash(hello, 1) }}",
+               "{% for i in [1, 2] %}{% if loop.first %}{{ stash(loop, 2) }}{% endif %}{% endfor %}",
+               "{% set ns = namespace(v=7) %}{{ stash(ns, 3) }}",
+               "{% macro m() %}{{ stash(caller, 4) }}{% endmacro %}{% call m() %}x{% endcall %}"]
+ESCAPED = ["nothing", "a macro", "a loop object", "a namespace", "a caller"]
+THREADS = ["", " on a fresh thread", " on a fresh thread that rendered 1 template before", " on a fresh thread that rendered 3 templates before"]
+
+
+def mp(form):
+    """source code of the macro page of the given form"""
+    return 16 * (3 + 4 * form)
+
+
 def src_text(x):
     k, p = x % 16, x // 16
+    if k == 0 and p % 4 == 3:
+        return MACRO_HEADS[(p // 4) % 4] + "{% if f is defined %}{{ f() }}{% else %}{{ 100 + q }}{% endif %}"
     if k == 1: return "{{ %d }}{%% bad" % p
     if k == 2: return "{{ %d }}{%% for x in [1,2] %%}{%% set y %%}a{{ 1 // 0 }}{%% endset %%}{%% endfor %%}" % p
     if k == 15: return "{%% autoescape %s %%}{{ %s }}{%% endautoescape %%}" % (["'none'", "'html'", "'json'"][(p // 3) % 3], expr_text(x))
@@ -47,6 +64,7 @@ def src_text(x):
 def expr_text(x):
     k, p = x % 16, x // 16
     which, v = p % 2, p // 2
+    if k == 0 and p % 4 == 3: return "f() if f is defined else 100 + q"
     if k == 1: return "%d +" % p
     if k == 2: return "1 // 0"
     if k == 3: return "%d|%s" % (v, REG_NAMES[0][which])
@@ -81,7 +99,12 @@ def describe_step(s):
     if op == 24: return "set_auto_escape_callback(a callback that renders an inner template first)"
     if op == 7: return "clock := %d" % a
     if op == 8:
-        return 'get_template("%s").render(q=%d)%s%s' % (n, b % 4, " into a failing writer" if (b // 4) % 2 else "", " on a thread of its own" if (b // 8) % 2 else "")
+        return 'get_template("%s").render(q=%d, f=the escaped value if any)%s%s' % (n, b % 4, " into a failing writer" if (b // 4) % 2 else "", THREADS[(b // 8) % 4])
+    if op == 26:
+        how = "render_captured + State::lookup(hello|ns)" if (b // 4) % 2 else "render with the stash function armed"
+        return 'capture the value escaping from get_template("%s") (%s)%s' % (n, how, THREADS[b % 4])
+    if op == 27:
+        return "capture the value escaping from an ad-hoc render of a macro page (%s)" % ESCAPED[a % 4 + 1]
     if op in (9, 10):
         k = min(a // 4, 2)
         rn = REG_NAMES[k][a % 4]
@@ -127,6 +150,7 @@ def describe(case):
 # generators
 def rand_src(rng):
     r = rng.below(100)
+    if r < 8: return mp(rng.below(4))                         # lets a macro / loop / namespace / caller escape, calls f
     if r < 22: return 16 * rng.below(40)                      # plain
     if r < 36: return 1 + 16 * rng.below(40)                  # does not compile
     if r < 44: return 2 + 16 * rng.below(40)                  # fails while rendering
@@ -159,13 +183,14 @@ def rand_step(rng, used):
     if r < 31: return (5, 0, 0)
     if r < 38: return (6, rng.below(8), 0)
     if r < 47: return (7, rng.below(10), 0)
-    if r < 55: return (8, rand_name(rng), rng.choice([0, 0, 1, 1, 2, 3, 4, 5, 8, 9, 13]))
+    if r < 55: return (8, rand_name(rng), rng.choice([0, 0, 1, 1, 2, 3, 4, 5, 8, 8, 9, 13, 16, 16, 17, 24]))
     if r < 62: return (9, rng.choice(REG_SLOTS), 1 + rng.below(3) if rng.chance(1, 2) else 4 + rng.below(9))
     if r < 66: return (10, rng.choice(REG_SLOTS), 0)
     if r < 71: return (11 + rng.below(2), 0, 0)
     if r < 76: return (13, 0, 0)
     if r < 80: return (22, rng.below(4), 0)
-    if r < 82: return (23 + rng.below(2), rng.below(6), 0)
+    if r < 82: return (23 + rng.below(2), rng.below(6), 0) if rng.chance(1, 2) else \
+        ((26, rand_name(rng), rng.below(8)) if rng.chance(3, 4) else (27, rng.below(4), 0))
     if r < 96 and r >= 82:
         # ad-hoc entry points; the name collides with a stored / loader-served template 5 times out of 6
         op = rng.choice(ADHOC + (14, 14, 17))
@@ -196,21 +221,25 @@ def gen(chk):
     # third family: nested / re-entrant renders (objects, filters, formatters that render a template themselves)
     alpha3 = [(9, 10, 6), (9, 10, 5), (1, 0, 15 + 16 * 3), (0, 1, 15), (0, 2, 15 + 16 * 5), (0, 3, 15 + 16 * 4),
               (9, 0, 7), (0, 1, 3), (8, 0, 0), (8, 0, 8), (23, 3, 0), (11, 0, 0)]
+    # fourth family: values that escape a render (macro, namespace, ...) and are called in later renders on this,
+    # a fresh, or a used thread
+    alpha4 = [(1, 0, mp(0)), (1, 1, mp(2)), (26, 0, 1), (26, 0, 2), (26, 0, 5), (27, 0, 0), (8, 0, 8), (8, 0, 16), (8, 0, 0),
+              (11, 0, 0), (4, 0, 0)]
     maxlen = 4 if chk.thorough else 3
     exhaustive = []
-    for al in (alpha, alpha2, alpha3):
+    for al in (alpha, alpha2, alpha3, alpha4):
         ex = [[]]
         for _ in range(maxlen):
             ex = [h + [s] for h in ex for s in al]
             exhaustive += ex
-    alpha = alpha + alpha2 + alpha3
+    alpha = alpha + alpha2 + alpha3 + alpha4
     return hist, exhaustive, alpha, maxlen
 
 
 # ---------------------------------------------------------------------------------------------
 # the fresh environment a step's predicted contents describe
-ENV_W = 23       # integers per environment in a contents line: src[4] cfg[4] loader now regs[12] cfg
-INITIAL = (-1, -1, -1, -1, -1, -1, -1, -1, -1, 0) + (-1, 0, -1, -1) * 3 + (0,)
+ENV_W = 24       # integers per environment in a contents line: src[4] cfg[4] loader now regs[12] cfg escaped
+INITIAL = (-1, -1, -1, -1, -1, -1, -1, -1, -1, 0) + (-1, 0, -1, -1) * 3 + (0, 0)
 CFG_I = 22
 
 
@@ -252,6 +281,8 @@ def fresh_history(cont, then=None):
             steps.append(((tpl[n] + n) % 4, n, tpl[n]))      # any of the four add flavours
     if cfg != cur:
         steps.append((22, cfg, 0))
+    if cont[23] > 0:
+        steps.append((27, cont[23] - 1, 0))   # a value of the same kind, escaped from an ad-hoc render
     if then is not None:
         steps.append(tuple(then))
     return tuple(steps)
@@ -466,6 +497,12 @@ def main():
                 events["templates printing/asking/calling the global object under none/html/json added"] += 1
             if s[0] in (23, 24) or (s[0] == 6 and s[1] >= 4):
                 events["formatter / auto-escape callback / loader that renders a template itself installed"] += 1
+            if s[0] in (26, 27) and line[0] == 6:
+                events["captures: a macro / loop object / namespace / caller escaped from a render"] += 1
+                if s[0] == 26 and s[2] % 4: events["... captured on a thread of its own"] += 1
+            if s[0] == 8 and cont[23] > 0:
+                events["renders with an escaped value in the context"] += 1
+                if (s[2] // 8) % 4: events["... on a fresh or used thread"] += 1
             if s[0] == 8:
                 if (s[2] // 4) % 2: events["renders into a failing writer"] += 1
                 if (s[2] // 8) % 2: events["renders on a thread of their own"] += 1
